@@ -87,6 +87,38 @@ def families(tier):
     return fam
 
 
+def spelling_family():
+    """Attribute names the parameter parser has to take apart: spaces,
+    commas, parentheses and quotes, written with backslash escapes and with
+    quote demarcation, in both notations."""
+    fam = []
+    for attr in ("a b", "a,b", " a", "a ", "a(b", "a)b", "a'b", 'a"b',
+                 "a\\b", "a.b", "a/b", "a  b", "ab"):
+        twin = attr.replace(" ", "")
+        recs = []
+        for i, val in enumerate((1000, 2000, "-", 1000)):
+            kv = [("id", "r%d" % i)]
+            if val != "-":
+                kv.append((attr, val))
+            if twin != attr and i in (1, 2):
+                # a record holding the look-alike key without the space
+                kv.append((twin, 3000))
+            recs.append(("m", tuple(kv)))
+        spec = ("l", tuple(recs))
+        plist = []
+        for kw in ("has_child", "max", "min", "unique", "distinct"):
+            for inv in (False, True):
+                seg = ("kw", kw, (attr,), inv)
+                for tail in ((), (("key", "id"),)):
+                    segs = (seg,) + tail
+                    plist.append((segs, paths.render(segs, ".", "bs"),
+                                  paths.render(segs, "/", "q")))
+                    plist.append((segs, paths.render(segs, ".", "q"),
+                                  paths.render(segs, "/", "bs")))
+        fam.append((spec, plist))
+    return fam
+
+
 def nav(pos):
     segs = []
     for ref in pos:
@@ -150,7 +182,7 @@ def climb_family(tier):
 
 def plan(tier):
     global CASES
-    CASES = families(tier) + climb_family(tier)
+    CASES = families(tier) + climb_family(tier) + spelling_family()
     npaths = sum(len(p) for _, p in CASES)
     bounds = {"documents": len(CASES), "cases": npaths,
               "sequence_max_length": 4 if tier == "quick" else 5,
